@@ -487,6 +487,18 @@ func (s *session) apply(step tf.M) bool {
 		}
 		tk.AddPendingProcessGroup(r.Ctx, tss.GroupID(gid))
 		s.d.W.Step("DkgDone", tf.M{"g": int(gid), "good": good}, tf.M{"ok": true}, s.project())
+	case "SetFee":
+		// environment: governance changes fee_per_signer
+		f := int64(tf.Int(step, "f", 1))
+		bp := bk.GetParams(r.Ctx)
+		bp.FeePerSigner = sdk.NewCoins()
+		if f > 0 {
+			bp.FeePerSigner = sdk.NewCoins(sdk.NewInt64Coin("uband", f))
+		}
+		if err := bk.SetParams(r.Ctx, bp); err != nil {
+			return false
+		}
+		s.d.W.Step("SetFee", tf.M{"f": int(f)}, tf.M{"ok": true}, s.project())
 	case "SetCanSign":
 		g, b := uint64(tf.Int(step, "g", 1)), tf.Bool(step, "b", true)
 		kg, ok := s.groups[g]
@@ -654,7 +666,11 @@ func RandomScript(rng *rand.Rand, mode string) tf.Script {
 		case x < 34:
 			steps = append(steps, tf.M{"e": "DkgDone", "good": rng.Intn(5) != 0})
 		case x < 40:
-			steps = append(steps, tf.M{"e": "SetCanSign", "g": 1 + rng.Intn(3), "b": rng.Intn(2) == 0})
+			if mode == "fees" && rng.Intn(2) == 0 {
+				steps = append(steps, tf.M{"e": "SetFee", "f": []int{0, 1, 2, 3, 4}[rng.Intn(5)]})
+			} else {
+				steps = append(steps, tf.M{"e": "SetCanSign", "g": 1 + rng.Intn(3), "b": rng.Intn(2) == 0})
+			}
 		case x < 60:
 			if mode == "fees" {
 				p := []string{"p1", "p1", "p2", "p2", "authority"}[rng.Intn(5)]
